@@ -148,3 +148,116 @@ def replay_threads(module, what):
         return False, "no interference observed"
     finally:
         shutil.rmtree(d, ignore_errors=True)
+
+
+# ------------------------------------------------------------------------------------------------------
+# Memoised values on shared metadata objects (row groups, statistics, schema elements are shared by a handle, every
+# handle derived from it and all their threads): a slot guarded by `if not hasattr(X, K)` is published ONCE, with its
+# final value - a second store on the same path means another thread can pick up the intermediate value.
+def _max_stores(stmts, base, key):
+    n = 0
+    for st in stmts:
+        if isinstance(st, ast.If):
+            n += max(_max_stores(st.body, base, key), _max_stores(st.orelse, base, key))
+        elif isinstance(st, (ast.For, ast.While, ast.With, ast.Try)):
+            n += _max_stores(getattr(st, "body", []), base, key)
+        elif isinstance(st, (ast.Assign, ast.AugAssign)):
+            tgts = st.targets if isinstance(st, ast.Assign) else [st.target]
+            for t in tgts:
+                if isinstance(t, ast.Subscript) and ast.unparse(t.value) == base and \
+                        isinstance(t.slice, ast.Constant) and t.slice.value == key:
+                    n += 1
+                if isinstance(t, ast.Attribute) and ast.unparse(t.value) == base and t.attr == key:
+                    n += 1
+    return n
+
+
+def memo_published_once():
+    import importlib
+    res = dict(harness="lemma.memo_published_once[reader modules]", engine="structural", status="holds", findings=[],
+               inconclusive=[], functions=["fastparquet.%s (hasattr-guarded memo slots)" % m for m in MODULES],
+               shape=dict(modules=MODULES), bounds="every `if not hasattr(X, 'K')` block of the reader modules",
+               stats=dict(queries=0, sat=0, unsat=0, unknown=0, solver_ms=0.0, paths=0, steps=0), reached=0)
+    n = 0
+    for m in MODULES:
+        mod = importlib.import_module("fastparquet." + m)
+        tree = ast.parse(inspect.getsource(mod))
+        for fn in ast.walk(tree):
+            if not isinstance(fn, (ast.FunctionDef, ast.AsyncFunctionDef)):
+                continue
+            for node in ast.walk(fn):
+                if not (isinstance(node, ast.If) and isinstance(node.test, ast.UnaryOp) and
+                        isinstance(node.test.op, ast.Not) and isinstance(node.test.operand, ast.Call) and
+                        ast.unparse(node.test.operand.func) == "hasattr" and len(node.test.operand.args) == 2 and
+                        isinstance(node.test.operand.args[1], ast.Constant)):
+                    continue
+                base, key = ast.unparse(node.test.operand.args[0]), node.test.operand.args[1].value
+                n += 1
+                k = _max_stores(node.body, base, key)
+                if k > 1:
+                    res["status"] = "violation"
+                    res["findings"].append(dict(
+                        kind="contract", function="fastparquet.%s.%s" % (m, fn.name),
+                        obligation="a memo slot on shared metadata is published once",
+                        detail="fastparquet.%s.%s stores %s[%r] %d times on one path of its `if not hasattr` block: the "
+                               "first value is visible to every other thread and handle until the last store" % (
+                                   m, fn.name, base, key, k),
+                        shape=dict(module=m, function=fn.name, harness="lemma.memo_published_once"),
+                        cls="lemma:memo_published_once",
+                        witness=dict(driver="py:vf.pyshim.lemma_c20:replay_memo", args=dict(module=m, function=fn.name))))
+    res["reached"] = n
+    res["stats"]["steps"] = n
+    return res
+
+
+def replay_memo(module, function):
+    """one legal schedule: thread A is held on entry to converted_types.convert (between the two stores of a slot that
+    is published early), thread B runs a whole filtered read through the same handle, then A resumes"""
+    import shutil, tempfile, threading
+    import numpy as np
+    import pandas as pd
+    import fastparquet
+    import fastparquet.converted_types as ct
+    d = tempfile.mkdtemp(prefix="c20-")
+    try:
+        fn = os.path.join(d, "t.parq")
+        u = np.arange(3000000000, 3000000400, dtype="uint32")
+        fastparquet.write(fn, pd.DataFrame({"u": u}), row_group_offsets=100, stats=True)
+        flt = [("u", "==", 3000000007)]
+        want = len(fastparquet.ParquetFile(fn).to_pandas(filters=flt))
+        pf = fastparquet.ParquetFile(fn)
+        a_in, b_done, out = threading.Event(), threading.Event(), {}
+        code = ct.convert.__code__
+
+        def tracer(frame, event, arg):
+            if event == "call" and frame.f_code is code and not a_in.is_set():
+                a_in.set()
+                b_done.wait(20)
+            return None
+
+        def run_a():
+            sys.settrace(tracer)
+            try:
+                out["a"] = len(pf.to_pandas(filters=flt))
+            finally:
+                sys.settrace(None)
+
+        def run_b():
+            if a_in.wait(20):
+                try:
+                    out["b"] = len(pf.to_pandas(filters=flt))
+                except Exception as ex:
+                    out["b"] = "%s: %s" % (type(ex).__name__, ex)
+            b_done.set()
+        ta, tb = threading.Thread(target=run_a), threading.Thread(target=run_b)
+        ta.start(), tb.start()
+        ta.join(60), tb.join(60)
+        if "b" not in out:
+            return False, "the schedule was not reached (convert is not called while filtering)"
+        if out["b"] != want or out.get("a") != want:
+            return True, ("two threads filter %r through one handle, the second running while the first is inside "
+                          "converted_types.convert: they get %r and %r rows, a single thread gets %d" % (
+                              flt, out.get("a"), out["b"], want))
+        return False, "both threads get the sequential result"
+    finally:
+        shutil.rmtree(d, ignore_errors=True)
